@@ -68,7 +68,7 @@ def pairGapΩ (εv εvt : ℝ → ℝ → ℝ) (cmul beta kappa : ℝ) (ti tq : 
 /-- bound on the change of the pair's `Δ` term: `|γ| · σ_i²/c_iq / c_iq · e₂` -/
 def pairGapΔ (εw εwt : ℝ → ℝ → ℝ) (cmul beta kappa : ℝ) (g : GammaFn ℝ) (n : Nat)
     (ti tq : TeamAgg ℝ) : ℝ :=
-  |gammaVal g (lgp_tmC cmul beta ti tq) n ti.mu ti.sig2 ti.rank|
+  |gammaVal g (lgp_tmC cmul beta ti tq) n ti.mu ti.sig2 ti.players ti.rank|
     * (ti.sig2 / lgp_tmC cmul beta ti tq) / lgp_tmC cmul beta ti tq
     * pairLeafErr εw εwt cmul beta kappa ti tq
 
@@ -89,7 +89,7 @@ theorem lgp_tmPair_fst (L : Leaves ℝ) (cmul beta kappa : ℝ) (g : GammaFn ℝ
 theorem lgp_tmPair_snd (L : Leaves ℝ) (cmul beta kappa : ℝ) (g : GammaFn ℝ) (n : Nat)
     (ti tq : TeamAgg ℝ) :
     (tmPair L cmul beta kappa g n ti tq).2
-      = gammaVal g (lgp_tmC cmul beta ti tq) n ti.mu ti.sig2 ti.rank
+      = gammaVal g (lgp_tmC cmul beta ti tq) n ti.mu ti.sig2 ti.players ti.rank
           * (ti.sig2 / lgp_tmC cmul beta ti tq) / lgp_tmC cmul beta ti tq *
         (if ti.rank < tq.rank then
             L.w ((ti.mu - tq.mu) / lgp_tmC cmul beta ti tq) (kappa / lgp_tmC cmul beta ti tq)
